@@ -26,6 +26,26 @@ def indexRowOfJ (j : Json) : Except String IndexRow := do
       | .ok n => n
       | .error _ => 0 }
 
+/-- a row given by its raw cells (`cells`: column → cell content, `tags`: the tag cells) is READ by the model -/
+def rawIndexRowOfJ (c : Json) (j : Json) : IndexRow :=
+  RawIndexRow.read {
+    ty := getStrD c "type" [],
+    sheetName := getStrD c "sheet_name" [],
+    newName := getStrD c "new_name" [],
+    dataSheet := getStrD c "data_sheet" [],
+    dataRowId := getStrD c "data_row_id" [],
+    group := getStrD c "group" [],
+    status := getStrD c "status" [],
+    tags := getStrListD c "tags",
+    tplArgs := match getNat j "tpl_args" with
+      | .ok n => n
+      | .error _ => 0 }
+
+def indexRowOfJ' (j : Json) : Except String IndexRow :=
+  match j.getObjVal? "cells" with
+  | .ok c => pure (rawIndexRowOfJ c j)
+  | .error _ => indexRowOfJ j
+
 def sheetOfJ (j : Json) : Except String (Str × Index.Sheet) := do
   let a ← j.getArr?
   match a.toList with
@@ -33,7 +53,7 @@ def sheetOfJ (j : Json) : Except String (Str × Index.Sheet) := do
     let n ← asStr n
     let prov ← getNat body "prov"
     let rows ← match body.getObjVal? "rows" with
-      | .ok v => do let a ← v.getArr?; a.toList.mapM indexRowOfJ
+      | .ok v => do let a ← v.getArr?; a.toList.mapM indexRowOfJ'
       | .error _ => pure []
     let dat ← match body.getObjVal? "data" with
       | .ok v => do let a ← v.getArr?; a.toList.mapM rowOfJ
